@@ -354,10 +354,9 @@ namespace smt
             return lb <= l1.known_term && ub >= l1.known_term;
         }
         else if (l0.vars.size() == 1 && l1.vars.size() == 1)
-        {
-            const auto [lb, ub] = distance(l0.vars.cbegin()->first, l1.vars.cbegin()->first);
-            const auto kt = l0.known_term - l1.known_term;
-            return lb + kt <= 0 && ub + kt >= 0;
+        { // the two expressions can be equal iff zero lies within the range of their difference..
+            const auto [lb, ub] = bounds(l0 - l1);
+            return lb <= 0 && ub >= 0;
         }
         else
             throw std::invalid_argument("not a valid comparison between real difference logic expressions..");
